@@ -11,3 +11,4 @@ extern uint64_t vs_random(void);
 extern void vs_set_hang_cb(void (*cb)(const char *));
 extern void vs_set_group(int g);
 extern int vs_group(void);
+extern void vs_set_skew(unsigned point, unsigned len);
